@@ -15,8 +15,8 @@ MOD = "vf.checks.c13"
 
 def _scope(tier):
     if tier == "thorough":
-        return dict(deltas=(-3, -2, -1, 0, 1, 2, 3), nmax=8, ns_deltas=(-2, -1, 0, 1, 3), ns_nmax=7,
-                    cli_deltas=(-2, -1, 0, 1, 2), cli_nmax=6)
+        return dict(deltas=(-3, -2, -1, 0, 1, 2, 3), nmax=9, ns_deltas=(-2, -1, 0, 1, 3), ns_nmax=8,
+                    cli_deltas=(-2, -1, 0, 1, 2), cli_nmax=7)
     return dict(deltas=(-2, -1, 0, 1, 2), nmax=8, ns_deltas=(-2, -1, 0, 1, 3), ns_nmax=6,
                 cli_deltas=(-2, -1, 0, 1, 2), cli_nmax=5)
 
@@ -26,7 +26,7 @@ def shards(tier):
     out = []
     for base, c in ((33, 10), (64, 20), (33, 2)):
         # c = 2 with deltas down to -3 would need negative qualities: clip to valid characters
-        for first in itertools.product(sc["deltas"], repeat=2):
+        for first in itertools.product(sc["deltas"], repeat=3 if tier == "thorough" else 2):
             out.append(dict(part="fn", base=base, c=c, first=first, deltas=sc["deltas"], nmax=sc["nmax"]))
         out.append(dict(part="fn_short", base=base, c=c, deltas=sc["deltas"]))
     for first in sc["ns_deltas"]:
@@ -68,10 +68,10 @@ def run_shard(d):
         base, c = d["base"], d["c"]
         vals = sorted(set(max(0, c + x) for x in d["deltas"]))
         if part == "fn_short":
-            strings = [()] + [(v,) for v in vals]
+            strings = [()] + [(v,) for v in vals] + [(v, w) for v in vals for w in vals]
         else:
             f0 = tuple(max(0, c + x) for x in d["first"])
-            strings = (f0 + rest for L in range(0, d["nmax"] - 1) for rest in itertools.product(vals, repeat=L))
+            strings = (f0 + rest for L in range(0, d["nmax"] - len(f0) + 1) for rest in itertools.product(vals, repeat=L))
         trimmers = {p: QualityTrimmer(p[0], p[1], base) for p in _pairs(c)}
         for q in strings:
             q = list(q)
